@@ -48,6 +48,10 @@ func (c08Engine) Generate(seed uint64, tier string) *simrun.Case {
 	c.Knobs["preempt_num"] = 1
 	c.Knobs["preempt_den"] = []int64{1, 2, 8}[r.Intn(3)]
 	c.Knobs["waitfirst"] = int64(r.Intn(2)) // main waits for the WaitGroup before (1) or after (0) draining the channel
+	// program shape: 0 = workers are closures started in main; 1, 2 = workers are started by a function called from
+	// main (1) or from a function called from main (2) while main goes on declaring locals, and they call named functions
+	c.Knobs["nested"] = []int64{0, 0, 1, 2}[r.Intn(4)]
+	c.Knobs["deepscope"] = []int64{1, 1, 1, 0}[r.Intn(4)] // ego.runtime.deep.scope: on in the default profile, `ego test` and the server
 	for wi := 1; wi <= w; wi++ {
 		n := 1 + r.Intn(5)
 		for i := 0; i < n; i++ {
@@ -60,6 +64,9 @@ func (c08Engine) Generate(seed uint64, tier string) *simrun.Case {
 
 // c08Program renders the Ego source and the expected output of the synchronised variant.
 func c08Program(c *simrun.Case) (src, want string) {
+	if c.Knob("nested", 0) > 0 {
+		return c08NestedProgram(c)
+	}
 	w := int(c.Knob("workers", 1))
 	racy := c.Knob("racy", 0) == 1
 	lock, unlock := "mu.Lock()", "mu.Unlock()"
@@ -150,6 +157,43 @@ func c08Program(c *simrun.Case) (src, want string) {
 	return b.String(), want
 }
 
+// c08NestedProgram: goroutines launched from a nested call; they share only channels and a WaitGroup with main
+// (legal, race-free Go), call a named function in a loop, and main keeps declaring locals meanwhile.
+func c08NestedProgram(c *simrun.Case) (src, want string) {
+	w := int(c.Knob("workers", 1))
+	per := make([]int, w+1)
+	for _, op := range c.Ops {
+		if op.C >= 1 && op.C <= w {
+			per[op.C]++
+		}
+	}
+	var b strings.Builder
+	b.WriteString("package main\nimport \"fmt\"\nimport \"sync\"\n\n")
+	b.WriteString("func helper(n int) int {\n\treturn n + 1\n}\n\n")
+	b.WriteString("func launch(id int, k int, ch chan, wg *sync.WaitGroup) {\n\tgo func() {\n\t\tt := 0\n\t\tfor i := 0; i < k; i = i + 1 {\n\t\t\tt = helper(t)\n\t\t}\n\t\tch <- t + id\n\t\twg.Done()\n\t}()\n}\n\n")
+	b.WriteString("func mid(id int, k int, ch chan, wg *sync.WaitGroup) {\n\tx := id * 2\n\tlaunch(id, k, ch, wg)\n\tx = x + 1\n}\n\n")
+	b.WriteString("func main() {\n\tvar wg sync.WaitGroup\n")
+	fmt.Fprintf(&b, "\tch := make(chan, %d)\n\twg.Add(%d)\n", c.Knob("chancap", 1), w)
+	total := 0
+	for wi := 1; wi <= w; wi++ {
+		k := 3 + 3*per[wi]
+		total += k + wi
+		fn := "launch"
+		if c.Knob("nested", 1) == 2 {
+			fn = "mid"
+		}
+		fmt.Fprintf(&b, "\t%s(%d, %d, ch, &wg)\n", fn, wi, k)
+	}
+	m := 5 + len(c.Ops)
+	b.WriteString("\ta0 := 1\n")
+	for i := 1; i <= m; i++ {
+		fmt.Fprintf(&b, "\ta%d := a%d + 1\n", i, i-1)
+	}
+	fmt.Fprintf(&b, "\ts := 0\n\tfor i := 0; i < %d; i = i + 1 {\n\t\ts = s + <-ch\n\t}\n\twg.Wait()\n", w)
+	fmt.Fprintf(&b, "\tfmt.Println(s, a%d)\n}\n", m)
+	return b.String(), fmt.Sprintf("%d %d\n", total, m+1)
+}
+
 func (c08Engine) Execute(t *testing.T, c *simrun.Case, keepLog bool) *simrun.Outcome {
 	out := &simrun.Outcome{}
 	src, want := c08Program(c)
@@ -162,7 +206,7 @@ func (c08Engine) Execute(t *testing.T, c *simrun.Case, keepLog bool) *simrun.Out
 	p := simrun.Bubble(t, func() {
 		res = sim.Run(opt, func() {
 			defer func() { pan = recover() }()
-			got, cerr, rerr = RunProgram("c08", src, VMOptions{Optimize: c.Knob("optimize", 0) == 1, AllocSize: int(c.Knob("alloc", 0))})
+			got, cerr, rerr = RunProgram("c08", src, VMOptions{Optimize: c.Knob("optimize", 0) == 1, AllocSize: int(c.Knob("alloc", 0)), DeepScope: c.Knob("deepscope", 1) == 1})
 		})
 	})
 	if p != nil {
@@ -172,6 +216,9 @@ func (c08Engine) Execute(t *testing.T, c *simrun.Case, keepLog bool) *simrun.Out
 	out.FromSched(res)
 	out.Nontrivial = res.MaxRunnable >= 2
 	out.Probe("bytecode_steps", res.Sites["step"])
+	if c.Knob("nested", 0) > 0 {
+		out.Probe("nested_launch_programs", 1)
+	}
 	if c.Knob("racy", 0) == 1 {
 		out.Probe("racy_programs", 1)
 	} else {
@@ -190,9 +237,9 @@ func (c08Engine) Execute(t *testing.T, c *simrun.Case, keepLog bool) *simrun.Out
 		out.HarnessError = "generated program does not compile: " + cerr.Error() + "\n" + src
 	case rerr != nil:
 		out.Fail("C08/runtime-error", "program failed at run time: %v", rerr)
-	case c.Knob("racy", 0) == 0 && got != want:
+	case (c.Knob("racy", 0) == 0 || c.Knob("nested", 0) > 0) && got != want:
 		out.Fail("C08/wrong-result", "fully synchronised program printed %q, expected %q under every schedule", got, want)
-	case c.Knob("racy", 0) == 1 && strings.Count(got, "\n") != 1:
+	case c.Knob("racy", 0) == 1 && c.Knob("nested", 0) == 0 && strings.Count(got, "\n") != 1:
 		out.Fail("C08/wrong-result", "racy-by-design program did not print exactly one line: %q", got)
 	}
 	return out
